@@ -905,7 +905,14 @@ def r2_avoid(run, w, ip):
       s = n.stmt
       if n.kind != "return" or s.value is None:
         continue
-      for (e, at, facts) in _arms_of(v, s.value, n.id, v.cfg_facts(n.id)):
+      here = v.cfg_facts(n.id)
+      # the value as written, tested as written (`while x.upper() in avoid: ...` / `return x`)
+      if isinstance(s.value, ast.Name) and v.value_at(s.value.id, n.id) is None and \
+          _not_in_avoid(v, s.value, av, n.id, ip.return_shapes.get(id(s)), here):
+        run.ob(R2, fi.qualname, "return %s" % s.value.id, "the candidate is returned only when "
+               "its upper-cased form is not in the avoid set", True, fi=fi, node=s)
+        continue
+      for (e, at, facts) in _arms_of(v, s.value, n.id, here):
         if isinstance(e, ast.Call) and dotted(e.func) in helpers:
           # delegated to a helper that receives the same avoid set
           callee = dotted(e.func)
